@@ -114,7 +114,7 @@ def main():
         ],
         "checks": checks,
         "not_applicable": na,
-        "notes": "All checks run /repo's working tree via ./check (fresh interpreter, PYTHONHASHSEED=0). Known findings: /verif/known_findings.json (one known finding: C19 threaded emission order; 26 fixed entries over 19 fix: commits). Seeded changes and which check catches which: /verif/seeded and DESIGN.md section 12. VERIF_REPO / VERIF_EVIDENCE_DIR are used only by tools/try_seed.py to point a check at a scratch worktree.",
+        "notes": "All checks run /repo's working tree via ./check (fresh interpreter, PYTHONHASHSEED=0). Known findings: /verif/known_findings.json (known findings: C19 threaded emission order, C20 one dial decided before stop(); 26 fixed entries over 19 fix: commits). Seeded changes and which check catches which: /verif/seeded and DESIGN.md section 12. VERIF_REPO / VERIF_EVIDENCE_DIR are used only by tools/try_seed.py to point a check at a scratch worktree.",
     }
     with open(os.path.join(ROOT, "MANIFEST.json"), "w", encoding="utf-8") as fh:
         json.dump(manifest, fh, indent=1)
